@@ -4,7 +4,6 @@ import (
 	"fmt"
 
 	"github.com/cockroachdb/errors"
-	"verifh/gen"
 	"verifh/sym"
 	"verifh/wire"
 )
@@ -35,8 +34,7 @@ func reportText(e error) string {
 func H_C12_SafeRetained(v *sym.V) {
 	g := newG(v, sym.REGNN)
 	g.ClsSafe = sym.TOK
-	leaves := gen.Cat(gen.LibLeaves, gen.ForeignLeaves, gen.BarrierLeaves)
-	b := g.BuildUpTo("e", v.Param("D", 2), leaves, gen.Cat(gen.MsgWrappers, gen.AnnotWrappers, gen.ForeignWrappers))
+	b := build(v, g, "e")
 	e := b.Err
 	tag := b.Kinds[0].String()
 	switch v.Choice("stage", 4) {
